@@ -105,7 +105,7 @@ impl Stats {
     }
 }
 
-pub const ALL_FAMILIES: [&str; 9] = ["core", "stop", "bp", "mw", "eff", "sub", "api", "build", "two"];
+pub const ALL_FAMILIES: [&str; 11] = ["core", "stop", "bp", "mw", "eff", "sub", "api", "build", "two", "long", "fleet"];
 
 pub fn family_of(p: &PropSpec, batch_seed: u64, i: u64) -> &'static str {
     let total: u32 = p.families.iter().map(|f| f.1).sum();
